@@ -957,6 +957,16 @@ class TextXMetaMetaModel:
     def __contains__(self, name):
         return name in self.metamodel
 
+    def __iter__(self):
+        """
+        Iterates over the classes of the textX language.
+        """
+        return iter(self.metamodel)
+
+    @property
+    def namespaces(self):
+        return self.metamodel.namespaces
+
     def model_from_str(self, model_str, debug=None, **kwargs):
         """
         Instantiates meta-model (a.k.a. textX model) from the given string.
